@@ -251,9 +251,16 @@ pub struct Ambiguous {
 
 /// Adds one colliding pair of a drawn kind to a collision-free base set.
 pub fn gen_ambiguous(t: &mut Tape, name: &str) -> Option<Ambiguous> {
+    gen_ambiguous_kind(t, name, None)
+}
+
+/// `force_kind`: index into COLLISION_KINDS (the generators cycle through all kinds so that every
+/// kind occurs in every round).
+pub fn gen_ambiguous_kind(t: &mut Tape, name: &str, force_kind: Option<usize>) -> Option<Ambiguous> {
     let (mut base, _) = gen_spec(t, name);
     base.decls.truncate(8);
-    let kind_idx = t.below(COLLISION_KINDS.len());
+    let drawn = t.below(COLLISION_KINDS.len());
+    let kind_idx = force_kind.map(|k| k % COLLISION_KINDS.len()).unwrap_or(drawn);
     let kind = COLLISION_KINDS[kind_idx];
     let a = fresh(t, &base);
     let b = fresh(t, &base);
